@@ -697,6 +697,7 @@ func (fc *FontConfigurationGotext) splitFirstLine(hyphenCache map[HyphenDictKey]
 			// we don't break before or inside the hyphenate character
 			hyphenated = true
 			firstLine = fc.wrap(hyphenatedFirstLineText, style, pr.Inf)
+			firstLine.Length -= len(hyphenateCharacter) // do not consider hyphen for length
 			firstLine.ResumeAt = len(newFirstLineText)
 			if text[firstLine.ResumeAt] == softHyphen {
 				firstLine.ResumeAt += 1
@@ -710,6 +711,7 @@ func (fc *FontConfigurationGotext) splitFirstLine(hyphenCache map[HyphenDictKey]
 		hyphenated = true
 		hyphenatedFirstLineText = append(append([]rune(nil), firstLineText...), hyphenateCharacter...)
 		firstLine = fc.wrap(hyphenatedFirstLineText, style, pr.Inf)
+		firstLine.Length -= len(hyphenateCharacter) // do not consider hyphen for length
 		firstLine.ResumeAt = len(firstLineText)
 	}
 
